@@ -13,7 +13,7 @@ VARIABLES
   resp,      \* "none","queued","running","paused","completing","gone"
   sigPause, sigErr,      \* one-slot signals: BOOLEAN, "none"|"cancel"|"net"|"cmd"
   task,      \* "none","pending","active"
-  ex,        \* executor pc: "idle","start","load","txn","hook","complete","finish"
+  ex,        \* executor pc: "idle","start","load","txn","txnc","updhook","hook","complete","finish","finishing"
   exErr,     \* "nil","paused","cancel","net","cmd","hookerr"
   trav,      \* blocks traversed
   mq,        \* queued outgoing messages for P: sequence of [final] ; final: "none" or a terminal status name
@@ -22,13 +22,15 @@ VARIABLES
   prot,      \* connection protections held for the request (ghost count)
   completed, cancelled, neterr,   \* outcome notifications (ghost counts); completed is a sequence of statuses
   received,  \* the request has been received
+  upd,       \* updates from the requestor stored for the executor (response.updates)
+  sigUpd,    \* one-slot update signal
   nenv
-vars == <<resp, sigPause, sigErr, task, ex, exErr, trav, mq, sending, closed, prot, completed, cancelled, neterr, received, nenv>>
+vars == <<resp, sigPause, sigErr, task, ex, exErr, trav, mq, sending, closed, prot, completed, cancelled, neterr, received, upd, sigUpd, nenv>>
 
 NoMsg == [final |-> "-"]
 Init == /\ resp = "none" /\ sigPause = FALSE /\ sigErr = "none" /\ task = "none" /\ ex = "idle" /\ exErr = "nil" /\ trav = 0
         /\ mq = <<>> /\ sending = NoMsg /\ closed = FALSE /\ prot = 0 /\ completed = <<>> /\ cancelled = 0 /\ neterr = 0
-        /\ received = FALSE /\ nenv = 0
+        /\ received = FALSE /\ upd = 0 /\ sigUpd = FALSE /\ nenv = 0
 Live == resp \in {"queued", "running", "paused", "completing"}
 \* the peer's message queue coalesces everything queued since the sender last took a message (small blocks: one builder)
 Enq(final) == IF closed THEN mq ELSE IF mq = <<>> THEN <<[final |-> final]>> ELSE <<[final |-> IF final # "none" THEN final ELSE mq[1].final]>>
@@ -44,7 +46,7 @@ New(h) ==   \* h: "accept","reject","pause","error"
        [] h = "pause"  -> resp' = "paused" /\ task' = task /\ mq' = Enq("none")
        [] h = "reject" -> resp' = "completing" /\ task' = task /\ mq' = Enq("rejected")
        [] h = "error"  -> resp' = "completing" /\ task' = task /\ mq' = Enq("failed")
-  /\ UNCHANGED <<sigPause, sigErr, ex, exErr, trav, sending, closed, completed, cancelled, neterr>>
+  /\ UNCHANGED <<sigPause, sigErr, ex, exErr, trav, sending, closed, completed, cancelled, neterr, upd, sigUpd>>
 
 \* ---- abortRequest(e): e = "cancel" (requestor cancel), "net" (send failure), "cmd" (responder's CancelResponse)
 Abort(e) ==
@@ -59,67 +61,96 @@ Abort(e) ==
 PeerCancel(who) ==
   /\ Env1 /\ received
   /\ IF who = "P" \/ "KeyedByIdOnly" \in Dev THEN Abort("cancel") ELSE UNCHANGED <<task, resp, prot, cancelled, mq, sigErr>>
-  /\ UNCHANGED <<sigPause, ex, exErr, trav, sending, closed, completed, neterr, received>>
+  /\ UNCHANGED <<sigPause, ex, exErr, trav, sending, closed, completed, neterr, received, upd, sigUpd>>
 CmdCancel == /\ Env1 /\ received /\ Abort("cmd")
-             /\ UNCHANGED <<sigPause, ex, exErr, trav, sending, closed, completed, neterr, received>>
+             /\ UNCHANGED <<sigPause, ex, exErr, trav, sending, closed, completed, neterr, received, upd, sigUpd>>
+\* an update from a peer (processUpdate).  For a paused response the update hooks run in the manager's loop and decide
+\* d: "none" | "unpause" | "error"; otherwise the update is stored for the executor and the update signal is raised
+PeerUpdate(who, d) ==
+  /\ Env1 /\ received
+  /\ IF (who # "P" /\ "KeyedByIdOnly" \notin Dev) \/ ~Live \/ resp = "completing"
+     THEN UNCHANGED <<resp, task, mq, upd, sigUpd>>
+     ELSE IF resp = "paused" THEN
+          /\ UNCHANGED <<upd, sigUpd>>
+          /\ CASE d = "error"   -> resp' = "completing" /\ mq' = Enq("failed") /\ task' = task
+               [] d = "unpause" -> resp' = "queued" /\ task' = "pending" /\ mq' = mq
+               [] OTHER         -> UNCHANGED <<resp, task, mq>>
+     ELSE upd' = upd + 1 /\ sigUpd' = TRUE /\ UNCHANGED <<resp, task, mq>>
+  /\ UNCHANGED <<sigPause, sigErr, ex, exErr, trav, sending, closed, prot, completed, cancelled, neterr, received>>
 \* a new request from Q with the same id: the code overwrites P's record
 QNew == /\ Env1 /\ received
         /\ IF "KeyedByIdOnly" \in Dev /\ Live THEN resp' = "queued" /\ task' = "pending" /\ prot' = prot   \* (Q's own protection is not P's)
            ELSE UNCHANGED <<resp, task, prot>>
-        /\ UNCHANGED <<sigPause, sigErr, ex, exErr, trav, mq, sending, closed, completed, cancelled, neterr, received>>
+        /\ UNCHANGED <<sigPause, sigErr, ex, exErr, trav, mq, sending, closed, completed, cancelled, neterr, received, upd, sigUpd>>
 PauseCmd == /\ Env1 /\ received
             /\ sigPause' = (IF resp \in {"queued", "running"} THEN TRUE ELSE sigPause)
-            /\ UNCHANGED <<resp, sigErr, task, ex, exErr, trav, mq, sending, closed, prot, completed, cancelled, neterr, received>>
+            /\ UNCHANGED <<resp, sigErr, task, ex, exErr, trav, mq, sending, closed, prot, completed, cancelled, neterr, received, upd, sigUpd>>
 UnpauseCmd == /\ resp = "paused" /\ resp' = "queued" /\ task' = "pending"
-              /\ UNCHANGED <<sigPause, sigErr, ex, exErr, trav, mq, sending, closed, prot, completed, cancelled, neterr, received, nenv>>
+              /\ UNCHANGED <<sigPause, sigErr, ex, exErr, trav, mq, sending, closed, prot, completed, cancelled, neterr, received, upd, sigUpd, nenv>>
 
 \* ---- worker / query executor
 Pop == /\ ex = "idle" /\ task = "pending" /\ task' = "active" /\ ex' = "start"
-       /\ UNCHANGED <<resp, sigPause, sigErr, exErr, trav, mq, sending, closed, prot, completed, cancelled, neterr, received, nenv>>
+       /\ UNCHANGED <<resp, sigPause, sigErr, exErr, trav, mq, sending, closed, prot, completed, cancelled, neterr, received, upd, sigUpd, nenv>>
 Start == /\ ex = "start"
          /\ IF resp \in {"none", "gone", "completing"} THEN task' = "none" /\ ex' = "idle" /\ resp' = resp
             ELSE resp' = "running" /\ ex' = "load" /\ task' = task
          /\ exErr' = "nil"
-         /\ UNCHANGED <<sigPause, sigErr, trav, mq, sending, closed, prot, completed, cancelled, neterr, received, nenv>>
+         /\ UNCHANGED <<sigPause, sigErr, trav, mq, sending, closed, prot, completed, cancelled, neterr, received, upd, sigUpd, nenv>>
 \* load the next block, or find the traversal complete
 Load == /\ ex = "load" /\ ex' = (IF trav = K THEN "complete" ELSE "txn")
-        /\ UNCHANGED <<resp, sigPause, sigErr, task, exErr, trav, mq, sending, closed, prot, completed, cancelled, neterr, received, nenv>>
-\* transaction: checkForUpdates (pause first, then error), SendResponse
-Txn == /\ ex = "txn"
-       /\ IF sigPause THEN /\ sigPause' = FALSE /\ trav' = trav + 1 /\ mq' = Enq("none") /\ ex' = "finish" /\ exErr' = "paused" /\ sigErr' = sigErr
-          ELSE IF sigErr # "none" THEN /\ sigErr' = "none" /\ ex' = "finish" /\ exErr' = sigErr /\ UNCHANGED <<sigPause, trav, mq>>
-          ELSE /\ trav' = trav + 1 /\ mq' = Enq("none") /\ ex' = "hook" /\ UNCHANGED <<sigPause, sigErr, exErr>>
+        /\ UNCHANGED <<resp, sigPause, sigErr, task, exErr, trav, mq, sending, closed, prot, completed, cancelled, neterr, received, upd, sigUpd, nenv>>
+\* transaction: checkForUpdates, SendResponse.  The signals are read with one Go select: when both a pause and an error are
+\* pending either may be taken first (the other stays for later)
+TxnBody ==
+       /\ \/ /\ sigPause /\ sigPause' = FALSE /\ trav' = trav + 1 /\ mq' = Enq("none") /\ ex' = "finish" /\ exErr' = "paused" /\ UNCHANGED <<sigErr, upd, sigUpd>>
+          \/ /\ sigErr # "none" /\ sigErr' = "none" /\ ex' = "finish" /\ exErr' = sigErr /\ UNCHANGED <<sigPause, trav, mq, upd, sigUpd>>
+          \/ /\ sigUpd /\ sigUpd' = FALSE /\ ex' = (IF upd > 0 THEN "updhook" ELSE "txnc") /\ UNCHANGED <<sigPause, sigErr, exErr, trav, mq, upd>>
+          \/ /\ ~sigPause /\ sigErr = "none" /\ ~sigUpd /\ trav' = trav + 1 /\ mq' = Enq("none") /\ ex' = "hook" /\ UNCHANGED <<sigPause, sigErr, exErr, upd, sigUpd>>
        /\ UNCHANGED <<resp, task, sending, closed, prot, completed, cancelled, neterr, received, nenv>>
+Txn == ex = "txn" /\ TxnBody          \* entered from the load of the next block
+TxnCont == ex = "txnc" /\ TxnBody     \* the same loop going round after updates were handled
+\* the executor runs the update hooks for the stored updates one by one (GetUpdates handed it all of them): d: "none" | "error"
+UpdHook(d) ==
+  /\ ex = "updhook"
+  /\ IF d = "error" THEN ex' = "finish" /\ exErr' = "hookerr" /\ upd' = 0
+     ELSE upd' = upd - 1 /\ ex' = (IF upd - 1 > 0 THEN "updhook" ELSE "txnc") /\ exErr' = exErr
+  /\ UNCHANGED <<resp, sigPause, sigErr, task, trav, mq, sending, closed, prot, completed, cancelled, neterr, received, sigUpd, nenv>>
 \* outgoing block hook decision
 Hook(h) == /\ ex = "hook"
            /\ CASE h = "ok" -> ex' = "load" /\ exErr' = exErr
                 [] h = "pause" -> ex' = "finish" /\ exErr' = "paused"
                 [] h = "error" -> ex' = "finish" /\ exErr' = "hookerr"
-           /\ UNCHANGED <<resp, sigPause, sigErr, task, trav, mq, sending, closed, prot, completed, cancelled, neterr, received, nenv>>
+           /\ UNCHANGED <<resp, sigPause, sigErr, task, trav, mq, sending, closed, prot, completed, cancelled, neterr, received, upd, sigUpd, nenv>>
 Complete == /\ ex = "complete" /\ ex' = "finish" /\ exErr' = "nil"
-            /\ UNCHANGED <<resp, sigPause, sigErr, task, trav, mq, sending, closed, prot, completed, cancelled, neterr, received, nenv>>
-\* executeQuery tail + FinishTask handler (rendezvous)
-Finish ==
-  /\ ex = "finish" /\ ex' = "idle" /\ task' = "none"
-  /\ LET e == IF "NetErrSignalAfterLastBlock" \in Dev THEN exErr                      \* code: whatever the executor returned
+            /\ UNCHANGED <<resp, sigPause, sigErr, task, trav, mq, sending, closed, prot, completed, cancelled, neterr, received, upd, sigUpd, nenv>>
+\* executeQuery's tail, in the worker: the transaction that closes the response out (nothing for a pause, a network error or a
+\* requestor cancel)
+FinalTxn ==
+  /\ ex = "finish" /\ ex' = "finishing"
+  /\ LET status == CASE exErr = "nil" -> "full" [] exErr = "cmd" -> "cancelled" [] exErr = "hookerr" -> "failed" [] OTHER -> "none"
+     IN mq' = IF status # "none" THEN Enq(status) ELSE mq
+  /\ UNCHANGED <<resp, sigPause, sigErr, task, exErr, trav, sending, closed, prot, completed, cancelled, neterr, received, upd, sigUpd, nenv>>
+\* the FinishTask handler of the manager (rendezvous with the worker).  The final status may already have been sent, and the
+\* request terminated, by then.
+FinishMsg ==
+  /\ ex = "finishing" /\ ex' = "idle" /\ task' = "none"
+  /\ LET e == IF "NetErrSignalAfterLastBlock" \in Dev THEN exErr                      \* code as found: whatever the executor returned
               ELSE IF closed /\ exErr # "cancel" THEN "net"                          \* design: nothing more can be sent on a closed stream
               ELSE exErr                                                              \* (a requestor cancel the executor saw is still reported as one)
-         status == CASE e = "nil" -> "full" [] e = "cmd" -> "cancelled" [] e = "hookerr" -> "failed" [] OTHER -> "none"
-     IN /\ mq' = IF status # "none" THEN Enq(status) ELSE mq
-        /\ IF ~Live THEN UNCHANGED <<resp, prot, cancelled>>
-           ELSE IF e = "paused" THEN resp' = "paused" /\ UNCHANGED <<prot, cancelled>>
-           ELSE IF e = "cancel" THEN Term /\ cancelled' = cancelled + 1
-           ELSE IF e = "net" THEN Term /\ UNCHANGED cancelled
-           ELSE resp' = "completing" /\ UNCHANGED <<prot, cancelled>>
-  /\ UNCHANGED <<sigPause, sigErr, exErr, trav, sending, closed, completed, neterr, received, nenv>>
+     IN IF ~Live THEN UNCHANGED <<resp, prot, cancelled>>
+        ELSE IF e = "paused" THEN resp' = "paused" /\ UNCHANGED <<prot, cancelled>>
+        ELSE IF e = "cancel" THEN Term /\ cancelled' = cancelled + 1
+        ELSE IF e = "net" THEN Term /\ UNCHANGED cancelled
+        ELSE resp' = "completing" /\ UNCHANGED <<prot, cancelled>>
+  /\ UNCHANGED <<sigPause, sigErr, exErr, trav, mq, sending, closed, completed, neterr, received, upd, sigUpd, nenv>>
 
 \* ---- message queue and subscriber
 TakeMsg == /\ sending = NoMsg /\ mq # <<>> /\ sending' = Head(mq) /\ mq' = Tail(mq)
-           /\ UNCHANGED <<resp, sigPause, sigErr, task, ex, exErr, trav, closed, prot, completed, cancelled, neterr, received, nenv>>
+           /\ UNCHANGED <<resp, sigPause, sigErr, task, ex, exErr, trav, closed, prot, completed, cancelled, neterr, received, upd, sigUpd, nenv>>
 SendOK == /\ sending # NoMsg /\ sending' = NoMsg
           /\ IF sending.final # "none" THEN Term /\ completed' = Append(completed, sending.final)
              ELSE UNCHANGED <<resp, prot, completed>>
-          /\ UNCHANGED <<sigPause, sigErr, task, ex, exErr, trav, mq, closed, cancelled, neterr, received, nenv>>
+          /\ UNCHANGED <<sigPause, sigErr, task, ex, exErr, trav, mq, closed, cancelled, neterr, received, upd, sigUpd, nenv>>
 \* send failure: stream closed, queued messages of the request scrubbed, subscriber: abort(net), terminate if the message was terminal
 SendFail == /\ Env1 /\ sending # NoMsg /\ sending' = NoMsg /\ closed' = TRUE /\ mq' = <<>> /\ neterr' = neterr + 1
             /\ IF sending.final # "none" THEN /\ task' = (IF Live /\ task = "pending" THEN "none" ELSE task) /\ Term /\ UNCHANGED <<cancelled, sigErr>>
@@ -128,10 +159,11 @@ SendFail == /\ Env1 /\ sending # NoMsg /\ sending' = NoMsg /\ closed' = TRUE /\ 
                        ELSE IF resp # "running" THEN Term /\ UNCHANGED sigErr
                        ELSE sigErr' = (IF sigErr = "none" THEN "net" ELSE sigErr) /\ UNCHANGED <<resp, prot>>
                     /\ UNCHANGED cancelled
-            /\ UNCHANGED <<sigPause, ex, exErr, trav, completed, received>>
+            /\ UNCHANGED <<sigPause, ex, exErr, trav, completed, received, upd, sigUpd>>
 
-Sys == Pop \/ Start \/ Load \/ Txn \/ (\E h \in {"ok", "pause", "error"} : Hook(h)) \/ Complete \/ Finish \/ TakeMsg \/ SendOK
-Env == (\E h \in {"accept", "reject", "pause", "error"} : New(h)) \/ PeerCancel("P") \/ PeerCancel("Q") \/ QNew \/ CmdCancel \/ PauseCmd \/ SendFail
+Sys == Pop \/ Start \/ Load \/ Txn \/ TxnCont \/ (\E h \in {"ok", "pause", "error"} : Hook(h)) \/ (\E d \in {"none", "error"} : UpdHook(d)) \/ Complete \/ FinalTxn \/ FinishMsg \/ TakeMsg \/ SendOK
+Env == (\E h \in {"accept", "reject", "pause", "error"} : New(h)) \/ PeerCancel("P") \/ PeerCancel("Q")
+       \/ (\E w \in {"P", "Q"}, d \in {"none", "unpause", "error"} : PeerUpdate(w, d)) \/ QNew \/ CmdCancel \/ PauseCmd \/ SendFail
 Next == Sys \/ Env \/ UnpauseCmd
 Spec == Init /\ [][Next]_vars /\ WF_vars(Sys) /\ WF_vars(UnpauseCmd)
 -----------------------------------------------------------------------------
@@ -144,7 +176,7 @@ Retired == (Quiescent /\ received) => /\ resp = "gone" /\ prot = 0 /\ Outcomes >
                                       /\ Len(completed) + cancelled <= 1
 ProtSane == prot \in {0, 1}
 \* C10: a step caused by Q changes nothing of P's
-QInert == [][ (PeerCancel("Q") \/ QNew) => UNCHANGED <<resp, sigPause, sigErr, task, ex, exErr, trav, mq, sending, closed, prot, completed, cancelled, neterr>> ]_vars
+QInert == [][ (PeerCancel("Q") \/ QNew \/ \E d \in {"none", "unpause", "error"} : PeerUpdate("Q", d)) => UNCHANGED <<resp, sigPause, sigErr, task, ex, exErr, trav, mq, sending, closed, prot, completed, cancelled, neterr>> ]_vars
 \* C23 (responder half)
 StateAgreesWithQueue == Quiescent => /\ (resp = "queued") = (task = "pending") /\ (resp = "running") = (task = "active")
                                      /\ (resp \in {"paused", "completing", "gone", "none"} => task = "none")
